@@ -24,6 +24,11 @@ theorem mod_cert (a b k1 k2 : Nat) (h : a + P * k1 = b + P * k2) : a % P = b % P
   have h2 : (b + P * k2) % P = b % P := Nat.add_mul_mod_self_left b P k2
   rw [← h1, ← h2, h]
 
+theorem mod_eq_cert (a b : Nat) (h : a % P = b % P) : a + P * (b / P) = b + P * (a / P) := by
+  have h1 := Nat.div_add_mod a P
+  have h2 := Nat.div_add_mod b P
+  omega
+
 /-! ### add -/
 
 theorem add_mod (a b : BitVec 64) : (add__eEE a b).toNat % P = (a.toNat + b.toNat) % P := by
